@@ -72,6 +72,10 @@ def main(argv=None):
     anchor_mon = anchors.start(wl.META.get("anchor_files"))
 
     cases = parse_cases(args.cases)
+    try:
+        from workloads import gen as wl_gen
+    except Exception:  # noqa: BLE001
+        wl_gen = None
     skipped = 0
     setup = getattr(wl, "setup", None)
     if setup:
@@ -83,6 +87,8 @@ def main(argv=None):
         rec.case = i
         rng = np.random.default_rng([args.seed, i])
         ctx = core.Ctx(rec, rng, i, args.tier)
+        if wl_gen is not None:
+            wl_gen.set_history_rng(np.random.default_rng([args.seed, i, 7919]))
         try:
             wl.run_case(ctx, i)
         except Exception as e:  # noqa: BLE001
